@@ -63,6 +63,10 @@ void run_c01(const char* type) {
                       [](T a, T& o) { o = a; return true; });
     drive_unary<V, T>("C01", type, "post_dec_obj", vals, [](V a) { a--; return avel::to_array(a); },
                       [](T a, T& o) { o = (T)(U)((U)a - 1); return true; });
+    // self-aliasing compound forms: the right operand is the object itself
+    drive_unary<V, T>("C01", type, "add_assign_self", vals, [](V a) { a += a; return avel::to_array(a); }, [](T a, T& o) { o = (T)(U)((U)a + (U)a); return true; });
+    drive_unary<V, T>("C01", type, "sub_assign_self", vals, [](V a) { a -= a; return avel::to_array(a); }, [](T a, T& o) { (void)a; o = (T)0; return true; });
+    drive_unary<V, T>("C01", type, "mul_assign_self", vals, [](V a) { a *= a; return avel::to_array(a); }, [](T a, T& o) { o = (T)(U)((uint64_t)(U)a * (uint64_t)(U)a); return true; });
     (void)sizeof(Arr);
 }
 
